@@ -115,13 +115,13 @@ def var_of(lay, mid):
 
 
 def cfg_text(*, kinds, nmodels, lvals, th, pct, mix, layouts, max_updates, big_n, noobs_at, keep_hist,
-             emit=True):
+             gpb_big_n=99, emit=True):
     def s(xs):
         return "{" + ", ".join(str(x) for x in xs) + "}"
     lines = ["SPECIFICATION Spec",
              "CONSTANTS Kinds = {" + ", ".join(json.dumps(k) for k in kinds) + "}",
              f"CONSTANTS NModels = {s(nmodels)} LVals = {s(lvals)} Layouts = {s(layouts)}",
-             f"CONSTANTS MaxUpdates = {max_updates} BigN = {big_n} NoObsAt = {s(noobs_at)}",
+             f"CONSTANTS MaxUpdates = {max_updates} BigN = {big_n} GpbBigN = {gpb_big_n} NoObsAt = {s(noobs_at)}",
              f"CONSTANT KeepHist = {'TRUE' if keep_hist else 'FALSE'}",
              f"CONSTANT Thresholds <- {th}", f"CONSTANT Pcts <- {pct}", f"CONSTANT MixRatios <- {mix}"]
     lines += [f"INVARIANT {i}" for i in INVARIANTS]
@@ -272,7 +272,7 @@ def replay_behaviour(beh, seed):
         w = np.asarray(f.model_weights, dtype=float)
         tot = sum(st["mass"])
         exp_w = np.array([x / tot for x in st["mass"]])
-        suffix = "-after-reset" if st["reset"] else ""
+        suffix = "-after-reset" if st["reset"] else ("-all-below-threshold" if st["adm"] else "")
         # --- structure: arrays stay parallel, at least one model
         if not (len(f.models) == f.num_models == len(w) == len(f.model_likelihoods) == len(f.mode_probabilities)):
             bad("arrays-not-parallel", f"models/num_models/weights/likelihoods/mode lengths differ: {len(f.models)}/"
@@ -361,23 +361,25 @@ def _replay_chunk(args):
     return out, steps, alts
 
 
+def _pool_map(fn, jobs):
+    """Map over the worker pool forked in run() (or in-process when there is none, e.g. --replay)."""
+    pool = _RT.get("pool")
+    if pool is None:
+        return [fn(j) for j in jobs]
+    return pool.map(fn, jobs, chunksize=1)
+
+
 def replay_all(ctx: Ctx, behs, label):
-    """Replay behaviours in a pool of forked workers (resonaate imported once, before the fork)."""
-    import multiprocessing as mp
-    rt()
+    """Replay behaviours in the pool of forked workers (resonaate imported once, before the fork)."""
     if not behs:
         raise tlc.MachineryError(f"{label}: TLC produced no behaviours")
-    nproc = max(1, min(8, ctx.cpus // 2, len(behs) // 200 + 1))
     indexed = list(enumerate(behs))
-    chunks = [indexed[i::nproc * 4] for i in range(nproc * 4)]
-    if nproc == 1:
-        results = [_replay_chunk((c, ctx.seed)) for c in chunks]
-    else:
-        with mp.get_context("fork").Pool(nproc) as pool:
-            results = pool.map(_replay_chunk, [(c, ctx.seed) for c in chunks])
+    nchunks = max(1, min(64, len(behs) // 100))
+    chunks = [indexed[i::nchunks] for i in range(nchunks)]
+    results = _pool_map(_replay_chunk, [(c, ctx.seed) for c in chunks])
     steps = alts = 0
-    for out, s, a in results:
-        steps += s
+    for out, s_, a in results:
+        steps += s_
         alts += a
         for sig, what, rp in out:
             ctx.violation(sig, what, rp)
@@ -684,18 +686,10 @@ TRACE_INVARIANTS = {
 
 
 def validate_traces(ctx: Ctx, ntraces, max_steps):
-    import multiprocessing as mp
-    rt()
-    _install_gate_recorder()
     jobs = [(tid, ctx.seed * 7919 + 104729 * tid + 13) for tid in range(1, ntraces + 1)]
-    nproc = max(1, min(8, ctx.cpus // 2, ntraces // 8 + 1))
-    chunks = [jobs[i::nproc * 3] for i in range(nproc * 3)]
-    if nproc == 1:
-        results = [_trace_chunk((c, max_steps)) for c in chunks]
-    else:
-        with mp.get_context("fork").Pool(nproc) as pool:
-            results = pool.map(_trace_chunk, [(c, max_steps) for c in chunks])
-    traces = sorted((t for res in results for t in res), key=lambda t: t[0][0]["tid"] if t[0] else 0)
+    nchunks = max(1, min(48, ntraces // 4))
+    results = _pool_map(_trace_chunk, [(jobs[i::nchunks], max_steps) for i in range(nchunks)])
+    traces = sorted((t for res in results for t in res if t[0]), key=lambda t: t[0][0]["tid"])
     recs, aux = [], []
     invalid = 0
     for tr, ax, viol in traces:
@@ -706,25 +700,42 @@ def validate_traces(ctx: Ctx, ntraces, max_steps):
                 invalid += 1
             else:
                 ctx.violation(sig, what, rp)
+    ctx.extra["traces"] = {"traces": ntraces, "traces_cut_by_model_filter_failure": invalid}
+    return _validate_records(ctx, recs, aux, selftest=True)
+
+
+def _validate_records(ctx: Ctx, recs, aux, selftest):
     if not recs:
         raise tlc.MachineryError("no trace records produced")
+    nreal = len(recs)
+    bad_copies = _corrupt(recs) if selftest else []
+    allrecs = recs + [c for _, c in bad_copies]
     d = ctx.sub("trace")
-    (d / "records.json").write_text(json.dumps(recs))
+    (d / "records.json").write_text(json.dumps(allrecs))
     res = tlc.run_tlc("TraceMMAE", "TraceMMAE.cfg", d, workers=max(2, min(8, ctx.cpus // 2)), cont=True,
-                      env={"RECORDS_FILE": "records.json"}, timeout=3000)
+                      env={"RECORDS_FILE": "records.json"}, timeout=3000, heap="3g")
     tlc.require_ok(res, "TraceMMAE")
-    ctx.add_tlc(res, f"trace validation of {len(recs)} update() records of real SMM/GPB1 objects")
+    ctx.add_tlc(res, f"trace validation of {nreal} update() records of real SMM/GPB1 objects "
+                     f"(+{len(bad_copies)} corrupted copies that must be rejected)")
     flagged = set()
+    rejected_copies = set()
     for inv, states in res.invariant_violations:
         m = re.findall(r"/\\ i = (-?\d+)", "\n".join(states))
         j = int(m[-1]) if m else 0
+        if j > nreal:
+            rejected_copies.add(j - nreal - 1)
+            continue
         rec = recs[j - 1] if j > 0 else None
         if TRACE_INVARIANTS.get(inv) == "spec-internal" or rec is None:
             raise tlc.MachineryError(f"TraceMMAE: invariant {inv} of the specification itself fails on record {j}:\n"
                                      + "\n".join(states[-1:]))
         flagged.add(j)
         after = "-after-reset" if rec["obs"] and not any(rec["L"]) and not rec["skip"] else ""
-        ctx.violation(f"{rec['kind']}-trace-{inv}{after}",
+        wm = aux[j - 1].get("w_mid")
+        if rec["kind"] == "smm" and wm and all(x < rec["th"][0] / rec["th"][1] for x in wm):
+            after = "-all-below-threshold"
+        name = {"LoggedFinite": "probabilities-invalid"}.get(inv, inv)
+        ctx.violation(f"{rec['kind']}-trace-{name}{after}",
                       f"real {'StaticMultipleModel' if rec['kind'] == 'smm' else 'GeneralizedPseudoBayesian1'}: "
                       f"{TRACE_INVARIANTS.get(inv, inv)} (trace {rec['tid']} update {rec['k'] + 1})",
                       {"record": rec, "aux": aux[j - 1]})
@@ -780,15 +791,184 @@ def validate_traces(ctx: Ctx, ntraces, max_steps):
             if max(abs(a - b) for a, b in zip(specm, ax["m_post"])) > 0.1 + 1e-3:
                 ctx.violation("gpb1-trace-mode-probabilities", f"real {name}: mode probabilities {ax['m_post']} differ "
                               f"from the mixed posterior {specm}", {"record": rec, "aux": ax})
+    missed = [bad_copies[j][0] for j in range(len(bad_copies)) if j not in rejected_copies]
+    if missed:
+        raise tlc.MachineryError(f"binding self-test: TraceMMAE accepted corrupted records {missed}")
     ctx.traces_validated += checked
-    ctx.extra["trace_records"] = {"traces": ntraces, "records": len(recs), "validated_by_tlc": checked,
-                                  "skipped_undecided": skipped, "traces_cut_by_model_filter_failure": invalid,
+    ctx.extra["trace_records"] = {"records": len(recs), "validated_by_tlc": checked,
+                                  "skipped_undecided": skipped,
+                                  "corrupted_copies_rejected": [name for name, _ in bad_copies],
                                   "resets": sum(1 for r_ in recs if r_["obs"] and not r_["skip"] and not any(r_["L"])),
                                   "closed": sum(r_["closed"] for r_ in recs),
                                   "max_models": max(len(r_["ids"]) for r_ in recs)}
     return recs
 
 
+# --------------------------------------------------------------------------------------------
+# configurations
+# --------------------------------------------------------------------------------------------
+def _plans(quick):
+    """(label, cfg kwargs, run_tlc kwargs) of every TLC run that produces behaviours for the replay."""
+    sim = dict(kinds=["smm", "gpb1"], nmodels=list(range(5, 31)), lvals=[0, 1, 2], th="ThSim", pct="PctAll", mix="MixAll",
+               layouts=[1, 2, 3], big_n=99, gpb_big_n=0)      # GPB1 masses grow fast: one update fewer
+    if quick:
+        return [
+            ("exhaustive_2to3_models", dict(kinds=["smm", "gpb1"], nmodels=[2, 3], lvals=[0, 1, 3], th="ThQuick", pct="PctOne",
+                                            mix="MixOne", layouts=[1], max_updates=3, big_n=99, gpb_big_n=3,
+                                            noobs_at=[1]), {}),
+            ("exhaustive_smm_3to5_models", dict(kinds=["smm"], nmodels=[3, 4, 5], lvals=[0, 1, 3], th="ThQuick", pct="PctLow",
+                                                mix="MixOne", layouts=[2], max_updates=2, big_n=5, noobs_at=[1]), {}),
+            ("simulate_to_30_models", dict(max_updates=3, noobs_at=[1], **sim), dict(simulate="num=120", depth=400)),
+        ]
+    return [
+        ("exhaustive_smm_2to4_models", dict(kinds=["smm"], nmodels=[2, 3, 4], lvals=[0, 1, 3], th="ThAll", pct="PctAll",
+                                            mix="MixOne", layouts=[1], max_updates=3, big_n=4, noobs_at=[1, 2]), {}),
+        ("exhaustive_smm_4_likelihood_values", dict(kinds=["smm"], nmodels=[2, 3], lvals=[0, 1, 2, 3], th="ThQuick",
+                                                    pct="PctQuick", mix="MixOne", layouts=[2], max_updates=4, big_n=3,
+                                                    noobs_at=[1]), {}),
+        ("exhaustive_smm_5to7_models", dict(kinds=["smm"], nmodels=[5, 6, 7], lvals=[0, 1, 3], th="ThAll", pct="PctQuick",
+                                            mix="MixOne", layouts=[3], max_updates=1, big_n=99, noobs_at=[1]), {}),
+        ("exhaustive_gpb1_2to4_models", dict(kinds=["gpb1"], nmodels=[2, 3, 4], lvals=[0, 1, 3], th="ThQuick", pct="PctOne",
+                                             mix="MixAll", layouts=[1], max_updates=3, big_n=99, gpb_big_n=3,
+                                             noobs_at=[1, 2]), {}),
+        ("simulate_to_30_models", dict(max_updates=5, noobs_at=[1, 2, 3], **sim), dict(simulate="num=3000", depth=600)),
+        ("simulate_gpb1_to_30_models", dict(max_updates=3, noobs_at=[1, 2], **dict(sim, kinds=["gpb1"])),
+         dict(simulate="num=1500", depth=400)),
+    ]
+
+
+def _corrupt(recs):
+    """Binding self-test: corrupted copies of real records that TLC must reject."""
+    out = []
+
+    def pick(pred):
+        for rec in recs:
+            if not rec["skip"] and rec["obs"] and pred(rec):
+                return json.loads(json.dumps(rec))
+        return None
+    c = pick(lambda r_: r_["kind"] == "smm" and len(r_["post"]) >= 2)
+    if c:                                   # a surviving model missing from the logged list
+        c["post"] = c["post"][:-1]
+        c["mid"] = c["mid"][:-1] if c["mid"] == c["post"] + [c["mid"][-1]] else c["mid"]
+        out.append(("post-drops-model", c))
+    c = pick(lambda r_: r_["kind"] == "smm" and len(r_["mid"]) < len(r_["ids"]) and len(r_["mid"]) >= 1)
+    if c:                                   # a pruned model logged as kept
+        gone = [x for x in c["ids"] if x not in c["mid"]][0]
+        c["mid"] = sorted(c["mid"] + [gone], key=c["ids"].index)
+        out.append(("mid-keeps-pruned-model", c))
+    c = pick(lambda r_: r_["closed"] == 1)
+    if c:                                   # closed flag flipped
+        c["closed"], c["hb"] = 0, -1
+        out.append(("closed-flipped", c))
+    c = pick(lambda r_: r_["closed"] == 1 and r_["kind"] == "smm")
+    if c:                                   # handed-back filter is some other model
+        c["hb"] = [x for x in c["ids"] if x != c["hb"]][0]
+        out.append(("wrong-handback", c))
+    c = pick(lambda r_: True)
+    if c:
+        c["momOk"] = 0
+        out.append(("moment-flag", c))
+    for j, (_, c) in enumerate(out):
+        c["tid"] = -(j + 1)
+    return out
+
+
 def run(ctx: Ctx):
+    import multiprocessing as mp
+    from concurrent.futures import ThreadPoolExecutor
     rt()
-    raise tlc.MachineryError("driver under construction")
+    _install_gate_recorder()
+    ctx.rule = ("spec->impl: every maximal behaviour of MMAE.tla in the bounded lattice (model count, likelihood vector per "
+                "update from LVals incl. 0 = underflow, threshold, percentage, mix ratio, gate booleans, update([])) is one "
+                "case, keyed by its inputs; non-trivial = at least two updates, a zero-mass reset or an all-below-threshold "
+                "prune. impl->spec: each update() of a real SMM/GPB1 object over 6-D UKFs on a random observation sequence "
+                "is one case keyed by its projected prior, likelihoods and configuration; non-trivial = at least two models "
+                "and decidable margins")
+    ctx.assumptions = [
+        "models are constructed directly (AdaptiveFilter.initialize() and its database queries are bypassed); weights and "
+        "mode probabilities start at 1/n as initialize() sets them",
+        "replay: real likelihood = c * integer likelihood of the spec, realised through each model's prepared innovation and "
+        "innovation covariance (c common to the models of one update); comparisons with exact rationals at 1e-9",
+        "the chi-square gate is an environment boolean of the spec; replay realises it with combined NIS <= 0.08 (holds) or "
+        ">= 30 (fails); after a total underflow every NIS exceeds 1400 and the gate cannot hold",
+        "thresholds k/101, k/1009 never coincide with a reachable probability (TLC invariant TieFree)",
+        "trace direction: probabilities projected to integers /4000, likelihood ratios to /1000; updates whose rigorous "
+        "projection interval contains a threshold, is wider than 0.05, or whose total mass lies in (0, 1e-12) (where "
+        "fpe_equals may or may not reset) are skipped as undecided and counted",
+        "GPB1 hands back the mixture (documented); when every model is below prune_threshold any single survivor with "
+        "positive probability is admissible",
+    ]
+    plans = _plans(ctx.quick)
+    ntraces, max_steps = (120, 4) if ctx.quick else (2500, 6)
+    nproc = max(1, min(8, ctx.cpus // 2))
+    pool = mp.get_context("fork").Pool(nproc)       # forked before any thread exists
+    _RT["pool"] = pool
+    try:
+        with ThreadPoolExecutor(len(plans) + 1) as ex:
+            futs = []
+            for label, kw, rkw in plans:
+                cfg = cfg_text(keep_hist=True, **kw)
+                # -simulate on one worker: the sample is then a function of the seed alone
+                workers = 1 if "simulate" in rkw else max(2, ctx.cpus // 4)
+                futs.append((label, ex.submit(tlc.run_tlc, "MMAE", cfg, ctx.sub(label), workers=workers,
+                                              timeout=3000, seed=ctx.seed + 1, heap="3g", **rkw)))
+            validate_traces(ctx, ntraces, max_steps)
+            taken = {}
+            for label, fut in futs:
+                res = fut.result()
+                spec_must_hold(res, label)
+                ctx.add_tlc(res, f"MMAE.tla {label}: invariants + behaviours for the replay")
+                behs = sorted(res.tagged("BEH"), key=lambda b: json.dumps(b, sort_keys=True))   # TLC prints in worker order
+                seen, uniq = set(), []
+                for b in behs:
+                    key = _behaviour_key(b)
+                    if key not in seen:
+                        seen.add(key)
+                        uniq.append(b)
+                        for st in b["hist"]:
+                            kd = b["cfg"]["kind"]
+                            for name, on in (("Update", st["obs"]), ("NoObs", not st["obs"]), ("ResetOnZeroMass:reset", st["reset"]),
+                                             ("Prune", kd == "smm" and st["obs"]), ("Prune:all-below", len(st["adm"]) > 0),
+                                             ("Converge:gate-held", kd == "smm" and st["g"] == 1),
+                                             ("Converge:gate-failed", kd == "smm" and st["g"] == 0),
+                                             ("Converge:not-evaluated", kd == "smm" and st["obs"] and st["g"] == 2 and not st["closed"]),
+                                             ("Prune:closes", kd == "smm" and st["g"] == 2 and st["closed"]),
+                                             ("Gate:held", kd == "gpb1" and st["g"] == 1),
+                                             ("Gate:failed", kd == "gpb1" and st["g"] == 0)):
+                                if on:
+                                    taken[name] = taken.get(name, 0) + 1
+                replay_all(ctx, uniq, label)
+            want = ["Update", "NoObs", "ResetOnZeroMass:reset", "Prune", "Prune:all-below", "Converge:gate-held",
+                    "Converge:gate-failed", "Converge:not-evaluated", "Prune:closes", "Gate:held", "Gate:failed"]
+            dead = [k for k in want if not taken.get(k)]
+            if dead:
+                raise tlc.MachineryError(f"non-vacuity self-test: no replayed behaviour takes {dead}")
+            ctx.extra["actions_in_replayed_behaviours"] = taken
+    finally:
+        pool.close()
+        pool.terminate()
+        _RT.pop("pool", None)
+
+
+def replay(ctx: Ctx, rp: dict):
+    """Re-run one stored counterexample against the current tree."""
+    rt()
+    _install_gate_recorder()
+    data = rp["replay"]
+    if "behaviour" in data:
+        viol, _ = replay_behaviour(data["behaviour"], data.get("seed", 0))
+        ctx.case(("replay", _behaviour_key(data["behaviour"])))
+        ctx.case(("replay2", data.get("seed", 0)))
+        ctx.traces_validated += 1
+        for sig, what, r2 in viol:
+            ctx.violation(sig, what, r2)
+        return
+    seed = (data.get("aux") or {}).get("seed", data.get("trace_seed"))
+    if seed is None:
+        return run(ctx)
+    tid = (data.get("record") or data).get("tid", 1)
+    recs, aux, viol = gen_trace(tid, seed, 6)
+    for sig, what, r2 in viol:
+        if sig != "__invalid_input__":
+            ctx.violation(sig, what, r2)
+    _validate_records(ctx, recs, aux, selftest=False)
